@@ -399,6 +399,54 @@ Proof.
 Qed.
 Print Assumptions C17_icecast_icy_short_read_refuted.
 
+(* ---------------------------------------------------------------- two threads on one buffer *)
+
+(* The three accesses add() makes to the shared attribute, run without anything in between
+   (which is what holding _buffer_lock on both sides guarantees), are the sequential add(). *)
+Theorem C17_add_steps_atomic : forall d b,
+  buf_add d b = (add_room d b, add_store (add_load b) (add_room d b) d b).
+Proof. reflexivity. Qed.
+Print Assumptions C17_add_steps_atomic.
+
+(* seek() does not take the lock in PatchedIceCastClient - and need not: a seek that runs at any
+   point between add()'s accesses gives exactly the serial outcome "seek, then add" (seek
+   writes only the position, add never reads it, and add only makes the buffer longer). *)
+Theorem C17_seek_inside_add_is_serial : forall d b p,
+  let '(r, b1) := buf_seek p b in
+  buf_add d b1 = (add_room d b, add_store (add_load b) (add_room d b) d b1).
+Proof.
+  intros d b p. unfold buf_seek.
+  destruct (p =? b_pos b); [reflexivity|].
+  destruct (negb (b_hr b)); [reflexivity|].
+  destruct (b_head b <=? p); [reflexivity|].
+  destruct (N.min (b_head b) (dlen (b_buf b)) <=? p); reflexivity.
+Qed.
+Print Assumptions C17_seek_inside_add_is_serial.
+
+(* get() must be excluded: if a get() that trims the buffer runs between add()'s load and
+   store, the store puts the trimmed bytes back and the next get() delivers them a second
+   time - from a state that satisfies the invariant, so no serial order explains it.
+   Schedule: loop loads _buffer; reader get(2) -> bytes 1,2; loop stores; reader get(2) -> 1,2. *)
+Theorem C17_unlocked_get_inside_add_refuted :
+  exists acc b d n,
+    binv acc b /\
+    let room := add_room d b in
+    let old := add_load b in
+    let '(r1, b1) := buf_get n b in
+    let b2 := add_store old room d b1 in
+    let '(r2, _) := buf_get n b2 in
+    bytes_of r1 = [1; 2] /\ bytes_of r2 = [1; 2] /\
+    (* both serial orders deliver 1,2 and then 3,4 *)
+    bytes_of (fst (buf_get n (snd (buf_add d b1)))) = [3; 4] /\
+    bytes_of (fst (buf_get n (snd (buf_get n (snd (buf_add d b)))))) = [3; 4].
+Proof.
+  exists [0; 1; 2; 3], (mkbuf [(1, 3)] 8 1 1 false false), [(4, 2)], 2.
+  split.
+  - unfold binv; simpl. repeat split; try lia; reflexivity.
+  - vm_compute. repeat split; reflexivity.
+Qed.
+Print Assumptions C17_unlocked_get_inside_add_refuted.
+
 (* ================================================================ adequacy of the comparison *)
 
 (* The comparison used by the correspondence run (canonical forms) identifies only byte
